@@ -223,7 +223,11 @@ func c15Converge(w *World, r *Report) {
 			nComb++
 			// receiver = what is already stored in the same target map under the same key; argument = the ranged agg
 			recvOK := false
-			if lk, isL := peel(c.Call.Args[0]).(*ssa.Lookup); isL {
+			recv := peel(c.Call.Args[0])
+			if ex, isE := recv.(*ssa.Extract); isE && ex.Index == 0 {
+				recv = ex.Tuple // the value half of a comma-ok lookup (its ok half is the exists edge checked below)
+			}
+			if lk, isL := recv.(*ssa.Lookup); isL {
 				recvOK = lk.X == tgt && samePathLit(lk.Index, mu.Key)
 			}
 			argOK := strings.HasPrefix(np(c.Call.Args[1]), "next(range(") && strings.HasSuffix(np(c.Call.Args[1]), "#2")
